@@ -5,9 +5,30 @@ cd /verif
 export SCRATCH_DIR=/root/scratch/matrix
 ALL="C01 C02 C03 C04 C05 C06 C07 C08 C09 C10 C11 C12 C13 C14 C15 C16 C17 C18 C19 C20 C21 C22 C23 C24 C25 C26 C27 C28 C29 C30 C31 C32 C33 C34 C35"
 SEEDS="$@"; [ -z "$SEEDS" ] && SEEDS=$(ls seeded)
+# which checks to run against a seed: its own property plus the checks that exercise the same code
+related() {
+  case "$1" in
+    C01|C05|C06) echo "C01 C02 C05 C06 C07" ;;
+    C02|C04|C07) echo "C01 C02 C03 C04 C06 C07" ;;
+    C03|C12|C13) echo "C02 C03 C04 C12 C13" ;;
+    C08|C09|C10|C11) echo "C02 C04 C08 C09 C10 C11" ;;
+    C14|C15) echo "C12 C14 C15" ;;
+    C16|C17|C18|C19) echo "C16 C17 C18 C19 C25 C35" ;;
+    C20|C21) echo "C10 C20 C21" ;;
+    C22|C23|C24|C25|C26|C35) echo "C22 C23 C24 C25 C26 C27 C35" ;;
+    C27|C31) echo "C23 C27 C30 C31" ;;
+    C28|C29|C30) echo "C22 C25 C28 C29 C30" ;;
+    C32) echo "C25 C32" ;;
+    C33|C34) echo "C04 C10 C28 C33 C34" ;;
+    *) echo "$1" ;;
+  esac
+}
 for sid in $SEEDS; do
   [ -f seeded/$sid/patch.diff ] || continue
-  tools/scratch_run.sh /verif/seeded/$sid/patch.diff quick $ALL > seeded/$sid/matrix.raw 2>&1
+  prop=${sid%%-*}
+  CHECKS=$(related $prop)
+  [ -n "${MATRIX_ALL:-}" ] && CHECKS=$ALL
+  tools/scratch_run.sh /verif/seeded/$sid/patch.diff quick $CHECKS > seeded/$sid/matrix.raw 2>&1
   grep -E "^VIOLATION|^== C|CHECK-ERROR|patch does not apply" seeded/$sid/matrix.raw | cut -c1-260 > seeded/$sid/matrix.txt
   rm -f seeded/$sid/matrix.raw
   echo "$sid: $(grep -E '^== C.* exit=1' seeded/$sid/matrix.txt | sed 's/== //; s/ exit=1//' | tr '\n' ' ')"
@@ -21,18 +42,19 @@ for sid in sorted(os.listdir('/verif/seeded')):
     meta=json.load(open(f'{d}/meta.json')) if os.path.exists(f'{d}/meta.json') else {}
     txt=open(f'{d}/matrix.txt').read()
     caught=re.findall(r'^== (C\d+) exit=1', txt, re.M)
+    ran=re.findall(r'^== (C\d+) exit=\d', txt, re.M)
     errs=re.findall(r'^== (C\d+) exit=2', txt, re.M)
     sigs={}
     for m in re.finditer(r'^VIOLATION property=(C\d+) .*?signature=(.*)$', txt, re.M):
         sigs.setdefault(m.group(1),[]).append(m.group(2).strip()[:70])
-    rows.append((sid, meta.get('property','?'), meta.get('needs_to_manifest','')[:160], caught, errs, sigs))
+    rows.append((sid, meta.get('property','?'), meta.get('needs_to_manifest','')[:160], caught, errs, sigs, ran))
 with open('/verif/notes/seeded-matrix.md','w') as f:
     f.write("### 9.5 Seeded changes (written by independent sub-agents from the property text alone) and which checks catch them\n\n")
-    f.write("Each change compiles, passes the pinned 2981-test suite unedited, and comes with a demonstration test that fails with it and passes without it (all re-confirmed in a scratch worktree; see `seeded/<id>/meta.json`). The table is produced by `tools/seed_matrix.sh`: every quick check is run against a scratch copy of /repo HEAD with the patch applied.\n\n")
-    f.write("| Seed | Targets | Needs, to manifest | Checks that exit 1 (quick tier) | First signature of the target check |\n|---|---|---|---|---|\n")
-    for sid,prop,needs,caught,errs,sigs in rows:
+    f.write("Each change compiles, passes the pinned 2981-test suite unedited, and comes with a demonstration test that fails with it and passes without it (all re-confirmed in a scratch worktree; see `seeded/<id>/meta.json`). The table is produced by `tools/seed_matrix.sh`: the seed's own check and the checks that exercise the same code (see `related()` in the script) are run at the quick tier against a scratch copy of /repo HEAD with the patch applied; other checks were not run against that seed.\n\n")
+    f.write("| Seed | Targets | Needs, to manifest | Checks run -> those that exit 1 (quick tier) | First signature of the target check |\n|---|---|---|---|---|\n")
+    for sid,prop,needs,caught,errs,sigs,ran in rows:
         first=(sigs.get(prop) or ['-'])[0]
         extra=f" (exit 2: {', '.join(errs)})" if errs else ""
-        f.write(f"| {sid} | {prop} | {needs} | {', '.join(caught) or '**none**'}{extra} | `{first}` |\n")
+        f.write(f"| {sid} | {prop} | {needs} | {' '.join(ran)} -> {', '.join(caught) or '**none**'}{extra} | `{first}` |\n")
 print("wrote notes/seeded-matrix.md")
 PY
